@@ -50,6 +50,9 @@ def roundtrip(pkg, topname=None):
     """Import, then export the imported top-level modules (those no other module of the package instantiates), in package order."""
     try:
         ns = h.from_proto(pkg)
+    except Exception as ex:  # noqa
+        return {"import_refused": f"{type(ex).__name__}: {str(ex)[-250:]}"}
+    try:
         used = {i.module.local for m in pkg.modules for i in m.instances if i.module.WhichOneof("to") == "local"}
         tops = []
         for m in pkg.modules:
@@ -292,8 +295,9 @@ def param_space_packages(rng, n):
 
 def known_key(label, text):
     """the recorded finding: from_proto refuses a package in which one module's qualified name is a namespace on another's path —
-    matched by the program *and* by that very refusal (any other failure of the program is reported)"""
-    if label == "names:module-is-also-namespace" and "Invalid namespace path" in text and "overwriting" in text:
+    matched by the program *and* by the kind of failure — from_proto itself refuses, whatever it says — (any other failure of the program:
+    an import that succeeds and a re-export that differs or fails, is reported)"""
+    if label == "names:module-is-also-namespace" and ("import_refused" in text or "cannot be imported" in text):
         return "import:module-is-also-namespace"
     return None
 
